@@ -9,6 +9,7 @@ use std::collections::vec_deque::{Iter, VecDeque};
 use std::collections::HashMap;
 use std::convert::{From, TryFrom, TryInto};
 use vstd::std_specs::iter::IteratorSpec;
+use std::io::ErrorKind;
 verus! {
 global size_of usize == 8;
 //@@ include prelude/bytes_specs.rs
